@@ -11,6 +11,15 @@ open TelSpec TelModel TelProofs
 theorem tsm_prefix (P : TProg) (hp : progPast P = true) (h : Nat) (T : Trace) (hT : TSM (h+1) P T) : TSM h P T :=
   TelProofs.tsm_prefix P hp h T hT
 
+/-- the same with past temporal formulas (`&tel` body atoms built from `<`, `<:`, `<?`, `<*`, `<<`, `<;`, `<:;`, Boolean
+    connectives, `&initial`) in rule bodies: they do not see the horizon, so cutting the trace keeps their value -/
+theorem tsm_prefix_tel (P : TProg) (hp : progPastT P = true) (h : Nat) (T : Trace) (hT : TSM (h+1) P T) : TSM h P T :=
+  TelProofs.tsm_prefix_tel P hp h T hT
+
+/-- a past-only formula has the same value at every horizon -/
+theorem past_formula_horizon_free (h h' : Nat) (f : SForm) (hp : pastF f = true) (T : Trace) (k : Nat) :
+    docSem h T f k = docSem h' T f k := tht_horizon h h' f hp T T k
+
 /-- **C17** on the model of the incremental run: every stable model of the program accumulated after steps
     0..h+1, cut to the states 0..h, is a stable model of the program accumulated after steps 0..h — extending
     the horizon only appends a state, however many steps the run has already taken. -/
@@ -39,5 +48,9 @@ theorem C17_prefix_iter (P : TProg) (hp : progPast P = true) (h d : Nat) (X : In
 /-! ### non-vacuity -/
 example : progPast [⟨.initial, .choice ["a"], []⟩, ⟨.dynamic, .atom "b" 0, [.atom .pos "a" (-1), .init .not "b"]⟩,
                     ⟨.always, .falsum, [.atom .pos "b" (-2), .kw .not .kinitial]⟩] = true := by decide
+
+example : progPastT [⟨.initial, .choice ["a"], []⟩,
+                     ⟨.dynamic, .atom "b" 0, [.tel .notnot (.since (.atom "a") (.prev 2 true (.atom "b")))]⟩,
+                     ⟨.always, .falsum, [.tel .not (.alP (.bin .or (.atom "a") (.kw .kinitial)))]⟩] = true := by decide
 
 end TelProofs.C17
